@@ -6,6 +6,7 @@ PROP = dict(
         dict(module="MCRouter", cfg=dict(quick="MCRouter_quick.cfg", thorough="MCRouter_thorough.cfg"),
              timeout=dict(quick=600, thorough=3000)),
         dict(module="MCRouter", cfg="MCRouter_asbuilt.cfg", expect_violation="PropertyHolds", timeout=300),
+        dict(module="MCRouter", cfg="MCRouter_thorough3.cfg", timeout=3000, tiers=["thorough"]),
     ],
     level_text="The Router module states C05 declaratively (sound, complete, static, literal-wins, total, order-independent) "
                "next to a faithful model of the trie walk with backtracking; TLC checks model |= property exhaustively for all "
